@@ -426,6 +426,7 @@ func TestC12(t *testing.T) {
 	}
 	run := evid.Start("C12", "exploration")
 	thorough := run.Thorough()
+	run0 := time.Now()
 
 	budget := 130 * time.Second
 	if thorough {
@@ -435,6 +436,34 @@ func TestC12(t *testing.T) {
 		var s int
 		fmt.Sscan(v, &s)
 		budget = time.Duration(s) * time.Second
+	}
+	// The pipe spaces run FIRST, under a budget of their own (they used to run last on
+	// whatever the lattice spaces left over, which on a loaded machine was nothing:
+	// the chain-watcher half of the property then went unexplored without a trace
+	// other than a missing INFO line). The lattice budget starts when they are done.
+	pipeBudget := 75 * time.Second
+	if thorough {
+		pipeBudget = 9 * time.Minute
+	}
+	if v := os.Getenv("C12_PIPE_BUDGET_S"); v != "" {
+		var s int
+		fmt.Sscan(v, &s)
+		pipeBudget = time.Duration(s) * time.Second
+	}
+	var (
+		capsHit                   []string
+		spaceInfo                 []map[string]any
+		pipeExecs, pipeNontrivial int64
+		pipeCoarse, pipeFine      = map[string]int{}, map[string]int{}
+		pipeSigs                  = evid.NewCounter()
+		samples                   = evid.NewSamples(8)
+	)
+	if o := os.Getenv("C12_ONLY"); o == "" || o == "pipe" {
+		pipeExecs, pipeNontrivial = c12PipeSpaces(run, thorough, time.Now().Add(pipeBudget), &spaceInfo, &capsHit,
+			pipeCoarse, pipeFine, samples, func(sig string) { pipeSigs.Add(sig) })
+	}
+	if thorough {
+		budget -= time.Since(run0)
 	}
 	deadline := time.Now().Add(budget)
 
@@ -568,15 +597,12 @@ func TestC12(t *testing.T) {
 
 	var (
 		st        c12Stats
-		samples   = evid.NewSamples(8)
 		coarseAll = map[string]int{}
 		fineAll   = map[string]int{}
 		mergeMu   sync.Mutex
 		sigCount  = evid.NewCounter()
 		dimCount  = map[string]int{} // guarded by mergeMu
 		gated     sync.Map
-		capsHit   []string
-		spaceInfo []map[string]any
 		nondetMu  sync.Mutex
 		nondetEx  []any
 	)
@@ -804,17 +830,15 @@ func TestC12(t *testing.T) {
 		}
 	}
 
-	var pipeExecs, pipeNontrivial int64
-	if o := os.Getenv("C12_ONLY"); (o == "" || o == "pipe") && time.Now().Before(deadline) {
-		mergeMu.Lock()
-		pc, pf := map[string]int{}, map[string]int{}
-		mergeMu.Unlock()
-		pipeExecs, pipeNontrivial = c12PipeSpaces(run, thorough, deadline, &spaceInfo, &capsHit, pc, pf, samples, func(sig string) { sigCount.Add(sig) })
-		for k, v := range pc {
-			coarseAll[k] += v
-		}
-		for k, v := range pf {
-			fineAll[k] += v
+	for k, v := range pipeCoarse {
+		coarseAll[k] += v
+	}
+	for k, v := range pipeFine {
+		fineAll[k] += v
+	}
+	for k, v := range pipeSigs.Map() {
+		for i := 0; i < v; i++ {
+			sigCount.Add(k)
 		}
 	}
 	if o := os.Getenv("C12_ONLY"); thorough && (o == "" || o == "xcheck") {
